@@ -46,6 +46,11 @@ def bodies(rng, st, shebangs):
         out.append(("own-comment-top", trees.comment_block(st, ["ordinary comment at the top"]) + "\nK1 code\n"))
     for sb in shebangs[:2]:
         out.append(("shebang", sb + " first line declaration\nK1 code\n"))
+    # a byte order mark in front (files from Windows editors), alone and in front of a first-line declaration
+    out.append(("bom", "\ufeffK1 code line\nK2 more\n"))
+    out.append(("bom-empty", "\ufeff"))
+    for sb in shebangs[:1]:
+        out.append(("bom-shebang", "\ufeff" + sb + " first line declaration\nK1 code\n"))
     return out
 
 
